@@ -405,6 +405,16 @@ func TestC20CLI(t *testing.T) {
 			}
 			col.Class("cli-hostile-result")
 		}
+		if gen.Uniform(rt, "faultscript", 8) == 0 {
+			// scripts that end in a run-time fault of every kind (type errors,
+			// division and modulo by zero, unknown functions, panic(), runaway
+			// recursion, Go run-time panics that Execute recovers)
+			script = faultScripts[gen.Uniform(rt, "fault", len(faultScripts))]
+			if rapid.Bool().Draw(rt, "faultlate") {
+				script = pre + "function late(n) { foreach v in [1, 2] { if ( v == n ) { " + script + " } } return 0; }\nreturn late(2);"
+			}
+			col.Class("cli-fault-script")
+		}
 		if gen.Uniform(rt, "oddstart", 10) == 0 {
 			// the driver passes the file's text on as it is: whatever Execute
 			// makes of a byte-order mark, a no-break space, a NUL or a form feed
@@ -484,11 +494,17 @@ func TestC20CLI(t *testing.T) {
 		if jsonBad {
 			want = "Error parsing JSON"
 		} else if perr != nil {
-			want = "Error compiling:"
+			want = "Error compiling:" + perr.Error() + "\n"
 		} else {
 			res := ref.Execute(obj)
 			if res.Err != nil {
+				// "or the error that Execute gives": the driver's line carries
+				// Execute's own words (as long as Execute says the same thing twice)
 				want = "Failed to run script:"
+				if again := ref.Execute(obj); again.Err != nil && again.Err.Error() == res.Err.Error() && !isTimeout(res.Err) {
+					want = "Failed to run script: " + res.Err.Error() + "\n"
+					col.Class("cli-error-text-compared")
+				}
 			} else {
 				want = fmt.Sprintf("Script gave result type:%s value:%s - which is '%t'.\n", res.Val.Type(), res.Val.Inspect(), res.Val.Truth())
 			}
